@@ -810,10 +810,15 @@ func (e *xstore) do(op string) {
 		errs := map[int]error{}
 		var mu sync.Mutex
 		var wg sync.WaitGroup
+		start := make(chan struct{})
+		if name != "cpush" {
+			close(start)
+		}
 		for _, g := range groups {
 			wg.Add(1)
 			work := func(g []int) {
 				defer wg.Done()
+				<-start // all goroutines of a concurrent block start together
 				for _, i := range g {
 					err := e.pushOne(i)
 					mu.Lock()
@@ -826,6 +831,9 @@ func (e *xstore) do(op string) {
 			} else {
 				work(g)
 			}
+		}
+		if name == "cpush" {
+			close(start)
 		}
 		wg.Wait()
 		for _, g := range groups {
@@ -846,6 +854,105 @@ func (e *xstore) do(op string) {
 					e.fail("push-error", fmt.Sprintf("Push(%d): %v", i, err))
 				}
 			}
+		}
+	case "cmix":
+		// one goroutine per item, started together: <id> = Push, t<id>=<name> = Tag, u=<name> = Untag,
+		// x<id> = Delete.  Every name is touched by one item only and a deleted node is neither
+		// tagged nor untagged in the block, so the final resolver state is determined; what a
+		// Delete with AutoGC takes along depends on the interleaving and is read off the disk.
+		if e.ociSt == nil {
+			return
+		}
+		items := strings.Split(arg, "|")
+		errs := make([]error, len(items))
+		var wg sync.WaitGroup
+		start := make(chan struct{})
+		st := e.ociSt
+		for k, it := range items {
+			wg.Add(1)
+			go func(k int, it string) {
+				defer wg.Done()
+				<-start
+				switch {
+				case strings.HasPrefix(it, "t"):
+					a, nm, _ := strings.Cut(it[1:], "=")
+					if i, err := strconv.Atoi(a); err == nil && e.valid(i) {
+						errs[k] = st.Tag(ctx, e.u.g.Nodes[i].Desc, nm)
+					}
+				case strings.HasPrefix(it, "u="):
+					errs[k] = st.Untag(ctx, it[2:])
+				case strings.HasPrefix(it, "x"):
+					if i, err := strconv.Atoi(it[1:]); err == nil && e.valid(i) {
+						errs[k] = st.Delete(ctx, e.u.g.Nodes[i].Desc)
+					}
+				default:
+					if i, err := strconv.Atoi(it); err == nil && e.valid(i) && !e.u.g.Nodes[i].Foreign() {
+						errs[k] = e.pushOne(i)
+					}
+				}
+			}(k, it)
+		}
+		close(start)
+		wg.Wait()
+		for k, it := range items {
+			err := errs[k]
+			switch {
+			case strings.HasPrefix(it, "t"):
+				a, nm, _ := strings.Cut(it[1:], "=")
+				i, cerr := strconv.Atoi(a)
+				if cerr != nil || !e.valid(i) {
+					continue
+				}
+				if err == nil {
+					prev, had := e.tags[nm]
+					e.tags[nm] = i
+					if had && prev != i && !e.hasName(prev) {
+						e.sops = append(e.sops, fmt.Sprintf("U%d", prev))
+					}
+					e.sops = append(e.sops, fmt.Sprintf("T%d", i))
+				} else if e.stored[i] {
+					e.fail("tag-error", fmt.Sprintf("concurrent Tag(%d,%s): %v", i, nm, err))
+				}
+			case strings.HasPrefix(it, "x"):
+				if err != nil {
+					run.Count("delete-error")
+				}
+				e.sawDelete = true
+			case strings.HasPrefix(it, "u="):
+				nm := it[2:]
+				i, had := e.tags[nm]
+				if had && err != nil {
+					e.fail("untag-error", fmt.Sprintf("concurrent Untag(%s): %v", nm, err))
+				}
+				if had && err == nil {
+					delete(e.tags, nm)
+					if !e.hasName(i) {
+						e.sops = append(e.sops, fmt.Sprintf("U%d", i))
+					}
+				}
+			default:
+				i, cerr := strconv.Atoi(it)
+				if cerr != nil || !e.valid(i) || e.u.g.Nodes[i].Foreign() {
+					continue
+				}
+				switch {
+				case err == nil:
+					if e.stored[i] {
+						e.fail("push-twice", fmt.Sprintf("Push(%d) succeeded although the content was stored", i))
+					}
+					e.stored[i] = true
+					e.mops = append(e.mops, fmt.Sprintf("+%d", i), fmt.Sprintf("I%d", i))
+					e.toks = append(e.toks, "ok")
+					e.sops = append(e.sops, fmt.Sprintf("P%d", i))
+				case errors.Is(err, errdef.ErrAlreadyExists) && e.stored[i]:
+				default:
+					e.fail("push-error", fmt.Sprintf("concurrent Push(%d): %v", i, err))
+				}
+			}
+		}
+		for _, v := range e.refreshStored() {
+			e.mops = append(e.mops, fmt.Sprintf("D%d", v), fmt.Sprintf("-%d", v))
+			e.sops = append(e.sops, fmt.Sprintf("X%d", v))
 		}
 	case "tag":
 		a, nm, _ := strings.Cut(arg, ":")
@@ -1383,7 +1490,129 @@ func caseFromSeed(part string, seed uint64) {
 		genStore(r, part, origin)
 	case "perm":
 		permCases(r, origin)
+	case "burst":
+		genBurst(r, origin)
 	}
+}
+
+// genBurst: persistence of index.json under concurrent pushes.  Many goroutines push
+// distinct manifests that share children into one OCI store (AutoSaveIndex), optionally
+// together with Tag / Untag calls; immediately afterwards the layout is reopened in the
+// three ways and every node is queried against the inverse edge list restricted to the
+// blobs on disk.  A saveIndex that can write an older snapshot of the resolver over a newer
+// one drops a manifest from index.json: the live graph is exact, the reopened one is not.
+func genBurst(r *common.Rand, origin string) {
+	var enc []dag.Encoded
+	add := func(kind, mt string, b []byte, succ []int, subject int) int {
+		enc = append(enc, dag.Encoded{Kind: kind, MediaType: mt, Bytes: b, Succ: succ, Subject: subject, TwinOf: -1})
+		return len(enc) - 1
+	}
+	descOf := func(i int) ocispec.Descriptor {
+		return content.NewDescriptorFromBytes(enc[i].MediaType, enc[i].Bytes)
+	}
+	salt := r.U64()
+	nShared := 2 + r.Intn(3)
+	var shared []int
+	cfg := add(dag.KConfig, ocispec.MediaTypeImageConfig, []byte(fmt.Sprintf(`{"verif":"%x"}`, salt)), nil, -1)
+	for i := 0; i < nShared; i++ {
+		shared = append(shared, add(dag.KBlob, ocispec.MediaTypeImageLayer, []byte(fmt.Sprintf("layer-%d-%x", i, salt)), nil, -1))
+	}
+	image := func(id int, subject int) int {
+		m := ocispec.Manifest{MediaType: ocispec.MediaTypeImageManifest, Config: descOf(cfg), Layers: []ocispec.Descriptor{},
+			Annotations: map[string]string{"verif.id": fmt.Sprintf("%d-%x", id, salt)}}
+		m.SchemaVersion = 2
+		var succ []int
+		if subject >= 0 {
+			d := descOf(subject)
+			m.Subject = &d
+			succ = append(succ, subject)
+		}
+		succ = append(succ, cfg)
+		for _, l := range shared {
+			if r.Chance(1, 2) {
+				m.Layers = append(m.Layers, descOf(l))
+				succ = append(succ, l)
+			}
+		}
+		b, _ := json.Marshal(m)
+		return add(dag.KImage, ocispec.MediaTypeImageManifest, b, succ, subject)
+	}
+	index := func(id int, ms []int) int {
+		ix := ocispec.Index{MediaType: ocispec.MediaTypeImageIndex, Manifests: []ocispec.Descriptor{},
+			Annotations: map[string]string{"verif.id": fmt.Sprintf("%d-%x", id, salt)}}
+		ix.SchemaVersion = 2
+		var succ []int
+		for _, m := range ms {
+			ix.Manifests = append(ix.Manifests, descOf(m))
+			succ = append(succ, m)
+		}
+		b, _ := json.Marshal(ix)
+		return add(dag.KIndex, ocispec.MediaTypeImageIndex, b, succ, -1)
+	}
+	var pre []int
+	for i := 0; i < 1+r.Intn(3); i++ {
+		pre = append(pre, image(len(enc), -1))
+	}
+	// a manifest deleted inside some mixed blocks; never tagged or untagged
+	victim := image(len(enc), -1)
+	refs := append(append([]int(nil), pre...), victim)
+	nBurst := 16 + r.Intn(17)
+	var burst []int
+	for i := 0; i < nBurst; i++ {
+		switch x := r.Intn(10); {
+		case x < 6:
+			burst = append(burst, image(len(enc), -1))
+		case x < 8:
+			burst = append(burst, image(len(enc), common.Pick(r, refs))) // a referrer
+		default:
+			burst = append(burst, index(len(enc), []int{common.Pick(r, refs), common.Pick(r, pre)}))
+		}
+	}
+	g := dag.Decode(enc)
+	e := &xstore{u: newUniverse(g), kind: "oci", autoGC: r.Bool(), id: run.NewID(), origin: origin}
+	if err := e.open(); err != nil {
+		panic(err)
+	}
+	defer e.close()
+	e.do(fmt.Sprintf("push:%d", cfg))
+	for _, l := range shared {
+		e.do(fmt.Sprintf("push:%d", l))
+	}
+	for _, m := range refs {
+		e.do(fmt.Sprintf("push:%d", m))
+	}
+	mixed := r.Chance(1, 3)
+	var items []string
+	for _, m := range burst {
+		items = append(items, strconv.Itoa(m))
+	}
+	if mixed {
+		run.Count("burst-push-tag-untag")
+		// names tagged beforehand are untagged inside the block, fresh names are tagged inside it
+		for k, m := range pre {
+			nm := fmt.Sprintf("old%d", k)
+			e.do(fmt.Sprintf("tag:%d:%s", m, nm))
+			items = append(items, "u="+nm)
+		}
+		for k := 0; k < 2+r.Intn(4); k++ {
+			items = append(items, fmt.Sprintf("t%d=new%d", common.Pick(r, pre), k))
+		}
+		if r.Bool() {
+			run.Count("burst-with-delete")
+			items = append(items, fmt.Sprintf("x%d", victim))
+		}
+		common.Shuffle(r, items)
+		e.do("cmix:" + strings.Join(items, "|"))
+	} else {
+		run.Count("burst-push")
+		common.Shuffle(r, items)
+		e.do("cpush:" + strings.Join(items, "|"))
+	}
+	run.Count(fmt.Sprintf("burst-goroutines-%02d", len(items)/8*8))
+	for _, how := range []string{"fs", "tar", "dir"} {
+		e.do("reopen:" + how)
+	}
+	e.finish(origin)
 }
 
 // permCases: every permutation of the push order of a small graph, on the raw
@@ -1462,6 +1691,9 @@ func main() {
 	for i := 0; i < run.Scale(4, 25); i++ {
 		caseFromSeed("perm", run.Rand.U64())
 	}
+	for i := 0; i < run.Scale(150, 1500); i++ {
+		caseFromSeed("burst", run.Rand.U64())
+	}
 	kinds := []string{"oci", "oci", "oci", "oci", "memory", "file"}
 	for i := 0; i < nStore; i++ {
 		caseFromSeed(kinds[i%len(kinds)], run.Rand.U64())
@@ -1490,7 +1722,18 @@ func replay(path string) {
 			if err := json.Unmarshal([]byte(c["script"]), &rep.Script); err != nil {
 				panic(err)
 			}
-			replayStore(rep)
+			// a history with a concurrent block is schedule dependent: repeat it until it fails
+			// (or 60 times)
+			reps := 1
+			for _, op := range rep.Script {
+				if strings.HasPrefix(op, "cpush:") || strings.HasPrefix(op, "cmix:") {
+					reps = 60
+				}
+			}
+			before := run.OracleFails
+			for k := 0; k < reps && run.OracleFails == before; k++ {
+				replayStore(rep)
+			}
 		case "seed":
 			s, _ := strconv.ParseUint(c["seed"], 10, 64)
 			caseFromSeed(c["part"], s)
